@@ -69,6 +69,13 @@ func classify(ty types.Type) (kind, int) {
 		if k, _ := classify(u.Elem()); k == kByte {
 			return kBytes, 0
 		}
+	case *types.Pointer:
+		// a pointer to a byte array (`a *address`, address = [32]byte) is used like the array: a[i], a[lo:hi], copy(a[:], …)
+		if arr, ok := u.Elem().Underlying().(*types.Array); ok {
+			if k, _ := classify(arr.Elem()); k == kByte {
+				return kBytes, 0
+			}
+		}
 	}
 	if k, ok := classifyRecord(ty); ok {
 		return k, 0
